@@ -540,8 +540,9 @@ impl ClientToRelayMsg {
     pub(crate) fn from_bytes(mut content: Bytes, cache: &KeyCache) -> Result<Self, Error> {
         let frame_type = FrameType::from_bytes(&mut content)?;
         let frame_len = content.len();
+        // Same limit as the sending side enforces: frame type plus payload.
         ensure!(
-            frame_len <= MAX_PACKET_SIZE,
+            frame_type.encoded_len() + frame_len <= MAX_PACKET_SIZE,
             Error::FrameTooLarge { frame_len }
         );
 
